@@ -297,4 +297,40 @@ PROPS["C10"] = {
     "assumptions": ["explicit FIFO/socket arguments are outside the model (only entries met during -r are modelled)"],
 }
 
+def nt_c18(lhs, impl):
+    f = lhs.split(" ")
+    data = _hexbytes(f[1])
+    nseg = data.count(b".") + 1
+    kinds = tuple(sorted(set(x for x in f[2:] if x in ("s", "n", "o", "null", "bad", "nob64", "obj"))))
+    keys = tuple(sorted(set(_hexbytes(f[i - 1]).decode("latin1")[:8] for i in range(3, len(f)) if f[i] in ("s", "n", "o") and len(f[i - 1]) > 1)))
+    return (nseg, kinds, keys[:6], impl[:1])
+
+PROPS["C18"] = {
+    "modules": ["WhatIs.Props.C18"],
+    "theorems": ["WhatIs.C18.no_map_range", "WhatIs.C18.null_rejected", "WhatIs.C18.numeric_dates_handled", "WhatIs.C18.empty_shown",
+                 "WhatIs.C18.tables_ok", "WhatIs.C18.split_three", "WhatIs.C18.jwt_iff", "WhatIs.C18.registered_readback",
+                 "WhatIs.C18.alg_readback", "WhatIs.C18.numeric_dates", "WhatIs.C18.absent_not_shown", "WhatIs.C18.order_independent",
+                 "WhatIs.C18.signature_readback"],
+    "facts": {"jwt.rangesOverMap": False, "jwt.nullRejected": True, "jwt.numericDates": True, "jwt.emptyShown": True,
+              "jwt.paramCount": 16, "jwt.algCount": 12},
+    "nontrivial": nt_c18,
+    "rule": "tokens built from header/payload objects over random subsets of the 16 registered names plus unknown names, values over "
+            "strings (incl. empty, numeric-looking, control characters), integers/floats/exponent forms, null/bool/array/object, 12 "
+            "registered algorithms and unknown ones, signatures of 0..512 bytes, each segment in any of the four base64 conventions; "
+            "every registered name alone with string/empty/number/numeric-string/null/array values in header and payload; near-misses "
+            "(2 or 4 segments, empty segments, null/array/string/number top level, truncated JSON, invalid base64, surrounding "
+            "whitespace, duplicate names). distinct non-trivial = distinct (#segments, value kinds, first registered names, accepted?)",
+    "design_ref": "DESIGN.md §5 C18",
+    "level_text": "Proof: for ALL inputs and ANY behaviour of the JSON library, the model accepts exactly three dot-separated RFC 4648 "
+                  "segments whose first two are JSON objects (null rejected); every registered string-valued parameter present is shown "
+                  "with its value, numeric exp/nbf/iat as the denoted UTC second, nothing absent is shown, the result does not depend on "
+                  "map order, and the shown signature decodes back to the raw bytes. Tied to jwt.go by regenerated tables/facts and a "
+                  "differential run with encoding/json as recorded oracle.",
+    "level_note": "Trusted: Lean kernel; translator; encoding/json (oracle: harness records the decoded objects); time formatting model "
+                  "(shared with C17, read back in the oracle); C14's base64 theorems.",
+    "technique": "Lean 4 proof (filterMap/lookup reasoning over regenerated tables, reuse of C14 accept_iff) + differential correspondence with JSON oracle records",
+    "trusted_base": ["encoding/json Unmarshal into map[string]any (oracle record)"],
+    "assumptions": ["H-json: duplicate member names and number syntax are resolved by the library"],
+}
+
 NOT_CLAIMED = {}
